@@ -29,7 +29,46 @@ func init() {
 	addRules("C01", func(w *World, r *Report) {
 		subRule(w, r, rC02Loops, "R01.10", "an optional value written with `=` is the only value taken: the optional-value loop starts counting at the number of attached values (same obligations as C02 R02.1)", 2)
 	}, rArgsUnmodified("R01.11"))
-	addRules("C03", exactStopsRule("R03.9"))
+	addRules("C03", exactStopsRule("R03.9"), func(w *World, r *Report) {
+		subRule(w, r, rC01ErrDiscipline, "R03.10", "a value the option refuses fails the parse: Save never reports success for a token it did not store (same obligations as C01 R01.5)", 10)
+	})
+	addRules("C03", func(w *World, r *Report) {
+		subRule(w, r, rC18TableWriters, "R03.11", "an unknown option stays unknown: parsing never adds entries to a node's option table, so a second occurrence of the same unknown token is handed over like the first (same obligations as C18 R18.13)", 2)
+	})
+	addRules("C08", func(w *World, r *Report) {
+		subRule(w, r, rC18TableWriters, "R08.12", "an unknown option stays unknown for the whole parse (same obligations as C18 R18.13)", 2)
+	})
+	addRules("C08", func(w *World, r *Report) {
+		subRule(w, r, rC01Regex, "R08.9", "every token that starts with a dash is recognised as an option, whatever bytes follow (same obligations as C01 R01.1)", 2)
+	}, func(w *World, r *Report) {
+		subRule(w, r, rC09Readers, "R08.10", "nothing but SetRequireOrder puts a node into require-order mode, where unknown options are returned instead of reported (same obligations as C09 R09.3)", 3)
+	})
+	addRules("C16", func(w *World, r *Report) {
+		subRule(w, r, rC15Buffer, "R16.11", "a task's completion is always reported: the output flush cannot block forever (lock and unlock paired on every path; same obligations as C15 R15.3)", 1)
+	})
+	addRules("C18", func(w *World, r *Report) {
+		subRule(w, r, rC06Alias, "R18.12", "an option is listed under the name it was declared with: AddChildOption stores the record under exactly the given key (same obligations as C06 R06.3)", 2)
+	}, rC18TableWriters)
+	addRules("C15", rC15SerialFlag("R15.6"))
+	addRules("C14", rC15SerialFlag("R14.8"))
+	addRules("C17", rC17ValidValuesSuggested)
+	addRules("C13", rC13RetriesPerVertex)
+	addRules("C05", rMessageFormats("R05.9", 10))
+	addRules("C01", rMessageFormats("R01.12", 10))
+	addRules("C08", rMessageFormats("R08.11", 10))
+	addRules("C11", rMessageFormats("R11.14", 10))
+	addRules("C20", rMessageFormats("R20.6", 10))
+	addRules("C10", func(w *World, r *Report) {
+		subRule(w, r, rC02SplitFirst, "R10.10", "the values the command function sees are the parsed ones: map values are not cut (same obligations as C02 R02.5)", 1)
+	})
+	addRules("C11", func(w *World, r *Report) {
+		subRule(w, r, rC06Readers, "R11.13", "whether help was requested is read from the record registered at the level asked (same obligations as C06 R06.6)", 3)
+	})
+	addRules("C12", func(w *World, r *Report) {
+		subRule(w, r, rC06Readers, "R12.7", "Called / CalledAs / Value report the record registered at the level asked (same obligations as C06 R06.6)", 3)
+	}, func(w *World, r *Report) {
+		subRule(w, r, rC06Writers, "R12.8", "Called and UsedAlias set from the environment at definition time are never cleared again (same obligations as C06 R06.1)", 3)
+	})
 	addRules("C04", rC04OnlyParserInterprets)
 	addRules("C11", func(w *World, r *Report) {
 		subRule(w, r, rC12GetEnvBody, "R11.12", "a required option supplied through its environment variable counts as supplied whatever the value (same obligations as C12 R12.4)", 9)
@@ -321,4 +360,295 @@ func (m *parserModel) isRequireOrderStop(b *ssa.BasicBlock, k int, s *ssa.BasicB
 		}
 	}
 	return false
+}
+
+// ---- message formats ---------------------------------------------------------------------------------------------
+
+// globalConstString: the constant string a package-level variable is initialised with (and never assigned again).
+func globalConstString(w *World, g *ssa.Global) (string, bool) {
+	if g.Pkg == nil {
+		return "", false
+	}
+	val, n := "", 0
+	fns := append([]*ssa.Function{}, w.Funcs...)
+	if initFn := g.Pkg.Func("init"); initFn != nil {
+		fns = append(fns, initFn)
+	}
+	for _, fn := range fns {
+		eachInstr(fn, func(in ssa.Instruction) {
+			if st, ok := in.(*ssa.Store); ok && st.Addr == ssa.Value(g) {
+				n++
+				if s, ok := constString(st.Val); ok {
+					val = s
+				} else {
+					n += 100
+				}
+			}
+		})
+	}
+	return val, n == 1
+}
+
+// formatString resolves a format operand built from constants, package-level message variables and `+`.
+func formatString(w *World, v ssa.Value, depth int) (string, bool) {
+	if depth > 6 {
+		return "", false
+	}
+	if s, ok := constString(v); ok {
+		return s, true
+	}
+	switch x := v.(type) {
+	case *ssa.BinOp:
+		if x.Op == token.ADD {
+			a, ok1 := formatString(w, x.X, depth+1)
+			b, ok2 := formatString(w, x.Y, depth+1)
+			return a + b, ok1 && ok2
+		}
+	case *ssa.UnOp:
+		if g, ok := x.X.(*ssa.Global); ok && x.Op == token.MUL {
+			return globalConstString(w, g)
+		}
+	}
+	return "", false
+}
+
+// verbArgs lists, for a printf format, the 1-based argument index every verb consumes (0 for a malformed directive).
+func verbArgs(format string) []int {
+	var out []int
+	next := 1
+	for i := 0; i < len(format); i++ {
+		if format[i] != '%' {
+			continue
+		}
+		i++
+		if i < len(format) && format[i] == '%' {
+			continue
+		}
+		// flags, width, precision, explicit indexes
+		for i < len(format) {
+			c := format[i]
+			if c == '[' {
+				j := strings.IndexByte(format[i:], ']')
+				if j < 0 {
+					out = append(out, 0)
+					return out
+				}
+				n := 0
+				for _, d := range format[i+1 : i+j] {
+					if d < '0' || d > '9' {
+						n = -1
+						break
+					}
+					n = n*10 + int(d-'0')
+				}
+				if n <= 0 {
+					out = append(out, 0)
+					return out
+				}
+				next = n
+				i += j + 1
+				continue
+			}
+			if c == '*' {
+				out = append(out, next)
+				next++
+				i++
+				continue
+			}
+			if strings.IndexByte("+-# 0123456789.", c) >= 0 {
+				i++
+				continue
+			}
+			break
+		}
+		if i >= len(format) {
+			out = append(out, 0)
+			return out
+		}
+		out = append(out, next)
+		next++
+	}
+	return out
+}
+
+// rMessageFormats: every message built from a message variable prints each of its arguments exactly once, in order.
+func rMessageFormats(id string, floor int) func(w *World, r *Report) {
+	return func(w *World, r *Report) {
+		ru := r.Rule(id, "diagnostics carry what they are given: wherever the library formats a message whose format comes from a package-level message variable (package text) or a constant, the format consumes every argument exactly once and in order (no argument is dropped, repeated or shifted by an explicit index)", floor)
+		for _, fn := range w.Funcs {
+			for _, c := range allCalls(fn) {
+				n := calleeName(c)
+				fi := -1
+				switch n {
+				case "fmt.Errorf", "fmt.Sprintf", "fmt.Printf":
+					fi = 0
+				case "fmt.Fprintf":
+					fi = 1
+				}
+				if fi < 0 || len(c.Common().Args) < fi+2 {
+					continue
+				}
+				a := c.Common().Args
+				format, ok := formatString(w, a[fi], 0)
+				if !ok {
+					continue
+				}
+				// only messages that involve a message variable or report an option
+				usesVar := false
+				p := NewProv(w, fn)
+				p.maxDepth = 0
+				p.Slice(a[fi])
+				for _, s := range p.Srcs {
+					if s.Kind == "global" {
+						usesVar = true
+					}
+				}
+				if !usesVar {
+					continue
+				}
+				els, spreads, okEls := elementsOf(a[fi+1], map[ssa.Value]bool{})
+				if !okEls || len(spreads) > 0 {
+					continue
+				}
+				verbs := verbArgs(format)
+				good := len(verbs) == len(els)
+				for i, v := range verbs {
+					if v != i+1 {
+						good = false
+					}
+				}
+				ru.Check(good, "format/"+short(fn), w.IPos(c), fmt.Sprintf("%q consumes its %d argument(s) once each, in order", format, len(els)), fmt.Sprintf("message format %q does not print its %d argument(s) once each and in order (verbs use arguments %v): part of the diagnostic (e.g. the list of candidates, the offending value) is lost or repeated", format, len(els), verbs))
+			}
+		}
+	}
+}
+
+// R15.6 (also R14.8)
+func rC15SerialFlag(id string) func(w *World, r *Report) {
+	return func(w *World, r *Report) {
+		ru := r.Rule(id, "serial mode is what SetSerial says: Graph.serial is written only by SetSerial, which stores true unconditionally (no other setter turns it on or off)", 1)
+		f := w.Field("dag", "Graph", "serial")
+		if f == nil {
+			ru.Undecided("anchor", "-", "field Graph.serial not found")
+			return
+		}
+		n := 0
+		for _, u := range w.fieldUses(f) {
+			if u.Kind == "read" {
+				continue
+			}
+			if _, fresh := rootOfAddr(u.Addr.X).(*ssa.Alloc); fresh {
+				continue // a Graph literal being built
+			}
+			n++
+			st, _ := u.Instr.(*ssa.Store)
+			good := st != nil && short(u.Fn) == "(*dag.Graph).SetSerial"
+			if good {
+				c, isC := st.Val.(*ssa.Const)
+				good = isC && c.Value != nil && c.Value.String() == "true" && st.Block() == u.Fn.Blocks[0]
+			}
+			ru.Check(good, "serial/writer/"+short(u.Fn), w.IPos(u.Instr), "SetSerial: serial = true", "the serial flag is written outside SetSerial (or conditionally): a graph asked to run serially can run tasks concurrently, and cancellation no longer stops queued tasks")
+		}
+		if n == 0 {
+			ru.Bad("serial/writer", "-", "SetSerial does not set the serial flag: serial graphs are scheduled by the concurrency limit alone")
+		}
+	}
+}
+
+// R17.9
+func rC17ValidValuesSuggested(w *World, r *Report) {
+	ru := r.Rule("R17.9", "what is offered after `--name=` is what the parser accepts: the ValidValues modifier always makes the option's suggested values equal to its (extended) valid values", 1)
+	var fn *ssa.Function
+	for _, f := range w.Funcs {
+		if strings.HasPrefix(short(f), "(*getoptions.GetOpt).ValidValues$") {
+			fn = f
+		}
+	}
+	if fn == nil {
+		ru.Undecided("anchor", "-", "ValidValues modifier not found")
+		return
+	}
+	n := 0
+	eachInstr(fn, func(in ssa.Instruction) {
+		_, f, v, ok := storeField(in)
+		if !ok || f.Name() != "SuggestedValues" {
+			return
+		}
+		n++
+		// the stored value is the option's ValidValues (the value just stored there, or a load of the field)
+		fromValid := false
+		if _, ok := loadOfFieldNamed(v, "ValidValues"); ok {
+			fromValid = true
+		}
+		eachInstr(fn, func(i2 ssa.Instruction) {
+			if _, f2, v2, ok := storeField(i2); ok && f2.Name() == "ValidValues" && v2 == v {
+				fromValid = true
+			}
+		})
+		uncond := in.Block() == fn.Blocks[0] || len(factsAt(in.Block())) == 0
+		ru.Check(fromValid && uncond, "ValidValues/suggested", w.IPos(in), "SuggestedValues = ValidValues, always", "the suggested values are not (always) replaced by the valid values: completion offers values the parser rejects or hides valid ones")
+	})
+	if n == 0 {
+		ru.Bad("ValidValues/suggested", w.Pos(fn.Pos()), "the ValidValues modifier does not set the suggested values")
+	}
+}
+
+// R13.9
+func rC13RetriesPerVertex(w *World, r *Report) {
+	ru := r.Rule("R13.9", "the retry budget belongs to the vertex of one graph: Vertex.Retries is written only by TaskRetries, from its parameter (a new vertex starts with zero; nothing is carried in the shared Task)", 1)
+	f := w.Field("dag", "Vertex", "Retries")
+	if f == nil {
+		ru.Undecided("anchor", "-", "field Vertex.Retries not found")
+		return
+	}
+	n := 0
+	for _, u := range w.fieldUses(f) {
+		if u.Kind == "read" {
+			continue
+		}
+		n++
+		st, _ := u.Instr.(*ssa.Store)
+		good := false
+		if st != nil {
+			if short(u.Fn) == "(*dag.Graph).TaskRetries" {
+				_, good = st.Val.(*ssa.Parameter)
+			} else if c, isC := st.Val.(*ssa.Const); isC {
+				k, ok := constInt(c)
+				good = ok && k == 0
+			}
+		}
+		ru.Check(good, "Retries/writer/"+short(u.Fn), w.IPos(u.Instr), "TaskRetries stores its parameter", "a vertex gets a retry count from somewhere other than TaskRetries on this graph (e.g. from the shared Task): a task can be entered more often than this graph allows")
+	}
+	if n == 0 {
+		ru.Bad("Retries/writer", "-", "TaskRetries does not store the retry count")
+	}
+}
+
+// R18.13
+func rC18TableWriters(w *World, r *Report) {
+	ru := r.Rule("R18.13", "the options of a level are fixed at definition time: entries are put into a node's ChildOptions table only by AddChildOption and copyOptionsFromParent (never while parsing), so the help option, the help command and Help() all see the same table", 2)
+	fCO := w.Field("getoptions", "programTree", "ChildOptions")
+	if fCO == nil {
+		ru.Undecided("anchor", "-", "field programTree.ChildOptions not found")
+		return
+	}
+	n := 0
+	for _, fn := range w.Funcs {
+		eachInstr(fn, func(in ssa.Instruction) {
+			mu, ok := in.(*ssa.MapUpdate)
+			if !ok {
+				return
+			}
+			if _, ok := loadOfField(mu.Map, fCO); !ok {
+				return
+			}
+			n++
+			name := short(fn)
+			good := name == "(*getoptions.programTree).AddChildOption" || name == "getoptions.copyOptionsFromParent"
+			ru.Check(good, "table-entry/"+name, w.IPos(mu), "definition-time registration", name+" adds entries to a node's option table: what a level offers depends on how it was reached (the help routes disagree)")
+		})
+	}
+	if n == 0 {
+		ru.Bad("table-entry", "-", "no registration of options found")
+	}
 }
